@@ -5,6 +5,7 @@ from tc.facts import call_names, loc
 from tc.flow import op_place
 from tc.sym import SymExec, show, show_atom, show_path
 from tc.util import agg_sites, calls_matching, cfg_of, const_strs, flow_of, local_def, where
+import roles as RL
 
 ENC = "server::encryption"
 SERVER = "server::types::Server"
@@ -53,7 +54,8 @@ def rule_X1(F, R):
             R.violation("X1", k, "value", "%s = %s, documented %s" % (k.split("::")[-1], got, v), None)
         else:
             R.ok("X1", "%s = %s" % (k.split("::")[-1], v))
-    b, paths = _paths(F, R, "X1", ENC + "::Cryptor::derive_key")
+    kdf = RL.kdf_fn(F)
+    b, paths = _paths(F, R, "X1", kdf or (ENC + "::Cryptor::derive_key"))
     okp = [p for p in paths if p.end[0] == "return" and p.ret[0] == "A" and p.ret[2] == "Ok"]
     if b is not None and not okp:
         R.violation("X1", b["path"], "no-ok-path", "derive_key has no successful path", where(b))
@@ -87,7 +89,7 @@ def rule_X1(F, R):
     b, paths = _paths(F, R, "X1", ENC + "::Cryptor::new")
     for p in paths:
         if p.end[0] == "return" and p.ret[0] == "A" and p.ret[2] == "Ok":
-            dk = [e for e in p.events if e["callee"].endswith("Cryptor::derive_key")]
+            dk = [e for e in p.events if e["callee"] == kdf]
             if len(dk) == 1 and dk[0]["args"] == (("P", "salt"), ("P", "secret")):
                 R.ok("X1", "Cryptor::new: key = derive_key(salt, secret)", where(b))
             else:
@@ -111,9 +113,10 @@ def rule_X1(F, R):
 
 def rule_X2(F, R):
     R.begin("X2", "AAD: derives from TASK_APP_ID and the bytes of the version id the data belongs to and from nothing else (decided for any layout code); where the layout code is of the recognised index-write shape: byte 0 = TASK_APP_ID, bytes 1.. = the 16 id bytes, length AAD_LEN")
-    b = F.bodies.get(ENC + "::Cryptor::make_aad")
+    aadf = RL.aad_fn(F)
+    b = F.bodies.get(aadf) if aadf else None
     if b is None:
-        R.missing("X2", ENC + "::Cryptor::make_aad")
+        R.missing("X2", "the function returning ring::aead::Aad<[u8; N]>")
         return
     fl = flow_of(b)
     cc = cfg_of(b)
@@ -152,7 +155,7 @@ def rule_X2(F, R):
         return
     R.ok("X2", "aad derives from TASK_APP_ID and version_id.as_bytes() only", w)
     # recognised layout
-    _b, paths = _paths(F, R, "X2", ENC + "::Cryptor::make_aad")
+    _b, paths = _paths(F, R, "X2", aadf)
     for p in paths:
         if p.end[0] != "return":
             continue
@@ -191,9 +194,10 @@ def rule_X3(F, R):
         fills = [e for e in p.events if e["callee"].endswith("SecureRandom::fill")]
         nonce = [e for e in p.events if e["callee"].endswith("Nonce::assume_unique_for_key")]
         seal = [e for e in p.events if "seal_in_place" in e["callee"]]
-        aad = [e for e in p.events if e["callee"].endswith("Cryptor::make_aad")]
+        _fb, _tb = RL.envelope_fns(F)
+        aad = [e for e in p.events if e["callee"] == RL.aad_fn(F)]
         ext = [e for e in p.events if e["callee"].endswith("extend_from_slice")]
-        tb = [e for e in p.events if e["callee"].endswith("Envelope::<'a>::to_bytes") or e["callee"].endswith("::to_bytes")]
+        tb = [e for e in p.events if e["callee"] == _tb]
         vid = ("F", ("P", "payload"), None, "version_id")
         if len(fills) != 1 or len(nonce) != 1 or len(seal) != 1 or len(aad) != 1:
             R.violation("X3", b["path"], "shape", "seal does not consist of one fill, one nonce, one make_aad and one seal_in_place", w)
@@ -229,10 +233,7 @@ def rule_X3(F, R):
             continue
         R.ok("X3", "seal: fill -> nonce -> make_aad(version_id) -> seal_in_place -> append tag -> envelope", w)
     # envelope writer order
-    tbn = None
-    for n in F.bodies:
-        if n.startswith(ENC + "::Envelope") and n.endswith("::to_bytes"):
-            tbn = n
+    tbn = RL.envelope_fns(F)[1]
     b, paths = _paths(F, R, "X3", tbn or (ENC + "::Envelope::to_bytes"))
     for p in paths:
         if p.end[0] != "return":
@@ -252,10 +253,7 @@ def rule_X3(F, R):
 
 def rule_X4(F, R):
     R.begin("X4", "unseal: too-short and wrong-version envelopes are rejected; nonce = bytes[1..1+NONCE_LEN], payload = bytes[1+NONCE_LEN..]; an AEAD failure is an error; the returned payload is the AEAD output")
-    fbn = None
-    for n in F.bodies:
-        if n.startswith(ENC + "::Envelope") and n.endswith("::from_bytes"):
-            fbn = n
+    fbn = RL.envelope_fns(F)[0]
     b, paths = _paths(F, R, "X4", fbn or (ENC + "::Envelope::from_bytes"))
     nl = ("F", ("B", "AddWithOverflow", ("K", "1_usize"), ("K", "ring::aead::NONCE_LEN")), None, 0)
     for p in paths:
@@ -285,8 +283,8 @@ def rule_X4(F, R):
             continue
         w = where(b)
         op = [e for e in p.events if e["callee"].endswith("::open_in_place")]
-        fb = [e for e in p.events if e["callee"].endswith("::from_bytes")]
-        aad = [e for e in p.events if e["callee"].endswith("Cryptor::make_aad")]
+        fb = [e for e in p.events if e["callee"] == fbn]
+        aad = [e for e in p.events if e["callee"] == RL.aad_fn(F)]
         isok = p.ret[0] == "A" and p.ret[2] == "Ok"
         if isok:
             if len(op) != 1 or len(fb) != 1 or len(aad) != 1:
@@ -472,7 +470,16 @@ def _find(F, name):
 
 def _id_role(F, b, fl, operand, c, rest=(), depth=0):
     """role of the version id that binds a sealed value: 'parent' | 'own' | '?..'"""
-    stop = lambda t: any(re.search(r"uuid::.*::new_v4$|parse_version_name|parse_snapshot_name|parse_version_filename|get_child_versions$|snapshot_info$|get_uuid_header$|^serde_json::(de::)?from_(reader|slice|str)", n) for n in call_names(t)) or _remote_helper(F, t)
+    uhf = RL.uuid_header_fn(F)
+
+    def _id_source(t):
+        """crate-local function of a remote backend that yields stored / listed version ids"""
+        n = t.get("callee") or ""
+        if n in F.bodies and _in_remote(n) and not _remote_helper(F, t):
+            out = F.bodies[n].get("sig_out") or ""
+            return "uuid::Uuid" in out
+        return False
+    stop = lambda t: any(re.search(r"uuid::.*::new_v4$|^serde_json::(de::)?from_(reader|slice|str)", n) for n in call_names(t)) or _id_source(t) or _remote_helper(F, t)
     p = op_place(operand)
     if p is None:
         return {"?const"}
@@ -492,7 +499,7 @@ def _id_role(F, b, fl, operand, c, rest=(), depth=0):
                 roles.add("?" + full)
         elif r[0] == "call":
             t = c.term(r[1])
-            if any(n.endswith("get_uuid_header") for n in call_names(t)):
+            if uhf in call_names(t):
                 hs = const_strs(fl.slice_operand(t["args"][1]), F)
                 if "X-Parent-Version-Id" in hs:
                     roles.add("parent")
@@ -601,7 +608,7 @@ def rule_X7(F, R):
             else:
                 R.violation("X7", owner, "http-salt", "the HTTP backend's salt is not the client id", where(b, bb))
         elif "cloud" in owner:
-            if sl.has_call(r"get_salt$"):
+            if any((tt.get("callee") or "") in RL.fns_calling(F, r"Cryptor::gen_salt$", r"cloud::server") for tt in sl.calls.values()):
                 R.ok("X7", "object store: salt = stored salt", where(b, bb))
             else:
                 R.violation("X7", owner, "cloud-salt", "the object-store backend's salt is not the stored salt", where(b, bb))
@@ -622,7 +629,8 @@ def rule_X7(F, R):
             else:
                 R.violation("X7", b["path"], "gen_salt", "gen_salt does not return 16 freshly generated random bytes", where(b))
     # the stored salt is created only through compare-and-swap with None (cloud)
-    gs = F.real_body("server::cloud::server::CloudServer::<SVC>::get_salt")
+    gsn = [x for x in RL.fns_calling(F, r"Cryptor::gen_salt$", r"cloud::server")]
+    gs = F.real_body(gsn[0]) if len(gsn) == 1 else None
     if gs is not None:
         c = cfg_of(gs)
         cas = calls_matching(c, r"Service::compare_and_swap$")
